@@ -148,6 +148,14 @@ func (b *buildPlan) placeOrphans(i *build.Instance, a []*decoderInfo) error {
 				if pkg := b.encConfig.PkgName; pkg != "" {
 					setPackage(f, pkg, false)
 				}
+				if b.importing {
+					// Decoders may refer to packages through identifiers which are
+					// bound to an import spec, such as TOML date-times and the time
+					// package; the file we write must declare those imports.
+					if err := astutil.Sanitize(f); err != nil {
+						return err
+					}
+				}
 				files = append(files, f)
 			}
 		} else {
